@@ -1,5 +1,6 @@
 """C01 — one particle-Gibbs update of the whole tree leaves the log_p_one posterior invariant."""
 import json
+import os
 import math
 from fractions import Fraction
 
@@ -16,7 +17,7 @@ from phyclone.utils.dev import clear_proposal_dist_caches
 ID = "C01"
 LEVEL = "proof"
 THEOREMS = ["csmc_invariant", "csmc_invariant_final_resample", "aux_mixture_invariant", "pg_spec_valid", "pg_csmc_invariant", "pg_incr_eq_incrWeight", "reachable_iff_order", "pg_invariant_abstract", "pg_csmc_exec", "pg_step_exec", "pg_invariant"]
-BUDGET = {"quick": 150, "thorough": 1200}
+BUDGET = {"quick": 150, "thorough": 1200 if os.environ.get("VERIF_DEEP") != "1" else 14000}
 RULE = ("configurations = (data set of 1..3 data points with dyadic likelihoods, alpha in {3/10,1,7/2}, proposal in "
         "{bootstrap, semi-adapted, fully-adapted}, outlier modelling off/on, particles N in {2,3}, resampling threshold in "
         "{0,1/2,7/10} (values at which a relative-ESS tie needs irrational weight ratios for N = 2; rows in which a decision still sits within 1e-9 of the threshold are counted and skipped), wiring = run command (setup_kernel/setup_samplers) or library (kernel with RootPermutationDistribution)); "
@@ -62,7 +63,11 @@ def configs(tier, rnd):
         n3 += [(3, kind, False, "run", 3, th) for kind in KINDS for th in ("0/1", "7/10")]
         n2 += [(2, kind, False, w, 4, th) for kind in KINDS for w in ("run", "lib") for th in ("0/1", "7/10")]
         n2 += [(2, "bootstrap", True, "run", 4, "1/2"), (2, "fully-adapted", False, "run", 5, "1/2")]
-    return out + n3 + n2
+    deep = []
+    if os.environ.get("VERIF_DEEP") == "1":
+        # optional soak (not part of the registered tiers): the full 243-tree matrix on four data points
+        deep = [(4, kind, False, "run", 2, "1/2") for kind in KINDS]
+    return out + n3 + n2 + deep
 
 
 def cases(tier, rnd):
